@@ -416,5 +416,21 @@ Proof. exists w_rename2. split; [vm_compute; reflexivity|]. apply roundtrip_ok_f
 Theorem load_dump_nonvacuous : WFy w_ok = true /\ roundtrip_ok w_ok = true /\ List.length (fst (denote w_ok)) = 4.
 Proof. repeat split; vm_compute; reflexivity. Qed.
 
+
+(* ---------- template sets over several files: every reference is resolved on its own ---------- *)
+(* the template loaded for a node / sub-circuit key depends on the referencing file and on ITS reference only, not on the
+   references next to it (CircuitTemplate.__init__ completes every path against self.path) *)
+Theorem mload_keyed_pointwise {A} (f : ref -> option A) : forall l l', mload_keyed f l = Some l' ->
+  Forall2 (fun kr kx => fst kr = fst kx /\ f (snd kr) = Some (snd kx)) l l'.
+Proof.
+  unfold mload_keyed. induction l as [|[k r] l IH]; intros l' H; cbn [mapM] in H.
+  - injection H as <-. constructor.
+  - cbn [fst snd] in H. destruct (f r) as [x|] eqn:Ef; cbn [obind] in H; [|discriminate].
+    destruct (mapM _ l) as [xs|] eqn:Em; cbn [obind] in H; [|discriminate]. injection H as <-.
+    constructor; [split; [reflexivity|exact Ef]|]. now apply IH.
+Qed.
+Theorem resolve_bare cur n : resolve cur (RBare n) = (cur, n).
+Proof. reflexivity. Qed.
+
 Print Assumptions load_dump.
 Print Assumptions load_dump_refuted_rename.
